@@ -78,3 +78,12 @@ META["C08"] = {
     "note": "Trusts the reference store/event model; 'matches' means exists and satisfies the predicate; lossy subscriptions are judged by their folded view at quiescence (sentinel-synchronised).",
     "technique": "bounded-exhaustive predicate (truth table) x history enumeration + rapid histories; fold and decision-table oracles",
 }
+META["C09"] = {
+    "text": ("Bounded-exhaustive schedule enumeration of the two lossy stages: scripts of {send write/remove per id, receive} are driven straight through mergeCollectionExcess (in-package) and "
+             "minibus.DropExcess, where the script is the schedule (a blocked receiver forces a delivery, an absent receiver forces a merge); every delivered change must equal an independent "
+             "merge of that id's pending changes (ADD.REMOVE cancels, REMOVE.ADD -> REPLACE, old values chain), nothing extra is delivered and the folded view equals the store; DropExcess must "
+             "hand over exactly the latest message. API level (rapid): lossy Value/Collection Pull with scripted consumer pacing - every write returns within a 5 s guard, the folded view "
+             "converges after a sentinel, old values chain; backpressured writer and consumer stay in lock-step with nothing dropped; one real-time case checks the five-second send timeout."),
+    "note": "The in-package test is overlaid into pkg/resource at check time; waits are bounded at 5 s (three orders of magnitude above observed latency); the send-timeout case takes ~5 s of real time and accepts 4-9 s.",
+    "technique": "bounded-exhaustive schedule/script enumeration against an independent merge model + rapid API-level pacing tests with fold/chain oracles",
+}
